@@ -30,7 +30,7 @@ Result ==
     CASE Ev.a = "Start" -> HStart(st, Ev.f)
       [] Ev.a = "Land" -> HLand(st, Ev.b, Ev.tn, Ev.f)
       [] Ev.a = "AuthV" -> HAuthV(st, Ev.v, Ev.cid, Ev.r)
-      [] Ev.a = "AuthW" -> HAuthW(st, Ev.b, Ev.tn, Ev.r, Ev.drop)
+      [] Ev.a = "AuthW" -> HAuthW(st, Ev.b, Ev.tn, Ev.r, Ev.ck, Ev.drop)
       [] Ev.a = "Callback" -> HCallback(st, Ev.b, Ev.tn, Ev.c, Ev.s)
       [] Ev.a = "Retrieve" -> HRetrieve(st, Ev.f)
       [] Ev.a = "FetchA" -> HFetchA(st, Ev.tn, Ev.r)
